@@ -3,7 +3,8 @@ import itertools
 from collections import Counter
 import os
 from lib.core import Case, GenError, write_if_changed, LEAN
-from lib import cbuild
+from lib import cbuild, core
+import json
 from gen import heap_gen, cfun
 
 def regen(ctx):
@@ -144,6 +145,63 @@ def gen_cases(rng, tier):
     if tier == "thorough":
         cases += exhaustive_cases([], 5) + exhaustive_cases(PREFILL, 4, isz=129) + exhaustive_cases([], 4, isz=300, storage="static 3")
     return cases
+
+
+def debug_cases(rng, tier):
+    """slice for the -DDEBUG_BUILD flavour: dynamic queues that own a handle array; pops and removes from every position"""
+    out = []
+    n = 500 if tier == "quick" else 6000
+    while len(out) < n:
+        c = gen_case(rng, rng.choice([20, 40, 90]))
+        if c.tags.get("nh") and not c.tags.get("static"):
+            c.tags["debug"] = True
+            out.append(c)
+    out += exhaustive_cases(PREFILL, 2, isz=129, style="bool")
+    return out
+
+
+def _debug_exe(ctx):
+    try:
+        return cbuild.build_harness(**dict(HARNESS, flavour="debug"))
+    except cbuild.BuildError as e:
+        ctx.machinery_broken("debug-flavour build: " + str(e)[:2000])
+        return None
+
+
+def extra_stages(ctx):
+    """second configuration: the whole library with -DDEBUG_BUILD (cbuild flavour `debug`, ASan/UBSan): every
+    AWS_PRECONDITION / AWS_POSTCONDITION(aws_priority_queue_is_valid(queue)) of priority_queue.c is live and aborts, so an
+    intermediate state that breaks the queue's own validity predicate (container and back-pointer list of different
+    length while a sift runs, ...) is a crash of the case.  Same op language, same model, same oracle."""
+    exe = _debug_exe(ctx)
+    if exe is None:
+        return
+    cases = debug_cases(ctx.rng, ctx.tier)
+    keep = ctx.cov.get("distribution")
+    first = len(ctx.violations)
+    core.correspondence_stage(ctx, cases, exe)
+    if keep is not None:
+        ctx.cov["distribution"] = keep
+    ctx.cov["debug_build_cases"] = len(cases)
+    for name, text, path, no_input in ctx.violations[first:]:
+        try:
+            r = json.load(open(path))
+        except Exception:
+            continue
+        if "ops" in r:
+            r["debug_ops"] = r.pop("ops")
+        r["flavour"] = "debug (-DDEBUG_BUILD library, ASan/UBSan)"
+        with open(path, "w") as f:
+            json.dump(r, f, indent=1)
+
+
+def replay(ctx, r):
+    if "debug_ops" not in r:
+        print(json.dumps(r, indent=1)[:3000])
+        return
+    exe = _debug_exe(ctx)
+    if exe is not None:
+        core.correspondence_stage(ctx, [Case(r["debug_ops"], r.get("tags"))], exe)
 
 
 # ---------------------------------------------------------------------------------------------
